@@ -657,12 +657,56 @@ class LockAnalysis:
         f = self.f
         if f.entry is None:
             return
-        order = sorted(f.blocks, reverse=True)
         self.block_in = {f.entry: dict(self.entry_state)}
-        work = [f.entry]
-        inq = {f.entry}
+        self._fix([f.entry])
+        # exception handlers: clang's CFG has no edge into a catch block.  A handler runs with exactly the lock objects
+        # that were alive before the try block began and stay alive throughout it (objects created inside the try are
+        # destroyed by unwinding), each in the join of the states it has at the points of the try body.
+        for _round in range(3):
+            seeds = []
+            for b, blk in f.blocks.items():
+                if not (blk.term and blk.term.get("k") == "CXXTryStmt"):
+                    continue
+                ts = f.stmts.get(blk.term.get("s"))
+                body = f.s(ts.get("try")) if ts else None
+                if body is None:
+                    continue
+                ep = f.elempos()
+                st = None
+                for d in f.descendants(body):
+                    pos = ep.get(d["id"])
+                    if pos is None or tuple(pos) not in self.before:
+                        continue
+                    st = _join(st, self.before[tuple(pos)])
+                if st is None:
+                    continue
+                for hb in blk.succs:
+                    if hb is None:
+                        continue
+                    old = self.block_in.get(hb)
+                    new = dict(st) if old is None else _join(old, st)
+                    if old is None or new != old:
+                        self.block_in[hb] = new
+                        seeds.append(hb)
+            if not seeds:
+                break
+            self._fix(seeds)
+        # acquire events may have been recorded several times during iteration
+        seen = set()
+        uniq = []
+        for ev in self.acquire_events:
+            k = (ev[0], ev[1])
+            if k in seen:
+                continue
+            seen.add(k)
+            uniq.append(ev)
+        self.acquire_events = uniq
+
+    def _fix(self, start):
+        f = self.f
+        work = list(start)
+        inq = set(start)
         iters = 0
-        edge_out = {}
         while work:
             iters += 1
             if iters > 5000:
@@ -690,16 +734,6 @@ class LockAnalysis:
                     if s not in inq:
                         work.append(s)
                         inq.add(s)
-        # acquire events may have been recorded several times during iteration
-        seen = set()
-        uniq = []
-        for ev in self.acquire_events:
-            k = (ev[0], ev[1])
-            if k in seen:
-                continue
-            seen.add(k)
-            uniq.append(ev)
-        self.acquire_events = uniq
 
     # ------------------------------------------------------------ queries
     def state_at(self, pos):
